@@ -65,3 +65,14 @@ def pmap(fn, items, extra=(), nproc=None, chunksize=1):
     ctx = mp.get_context('fork')
     with ctx.Pool(min(nproc, len(items))) as pool:
         return pool.map(_call, [(fn, it, extra) for it in items], chunksize=chunksize)
+
+
+def fresh_map(fn, items, extra=(), nproc=None):
+    """Like pmap but every item runs in a process forked freshly from the parent (no state shared between items)."""
+    nproc = nproc or NPROC
+    items = list(items)
+    if not items:
+        return []
+    ctx = mp.get_context('fork')
+    with ctx.Pool(min(nproc, len(items)), maxtasksperchild=1) as pool:
+        return pool.map(_call, [(fn, it, extra) for it in items], chunksize=1)
